@@ -1,11 +1,12 @@
 """C16 - the C extension accounts for every reference and stays inside its
 memory."""
+from ..harness import safe_repr as _srepr  # noqa: E402
 import gc
 import pickle
 import sys
 
 from .. import dbops, families, gen, harness, hist, inject, ledger, minidb, \
-    walker
+    reentry, walker
 from ..harness import brief
 from ..inject import CmpBoom, FKey
 from ..runner import rng_for
@@ -79,6 +80,29 @@ def plan(tier, seed):
                           histories=120 if q else 1500, seed=seed + 5,
                           tier=tier, variant='asan',
                           timeout=1500 if q else 7200))
+    # finalizers (__del__, weakref callbacks) of stored keys / values that
+    # look at or change the container in the middle of the operation that
+    # released them (vmon/reentry.py)
+    # (builds with C assert() compiled out, as shipped: the finalizer sees
+    # the container in the middle of an operation, where an assert() about
+    # the container at rest - "no empty bucket in a non-empty tree" - may
+    # legitimately not hold)
+    for fam in FAMS:
+        specs.append(dict(label=fam + '-reentry', family=fam, reentry=True,
+                          cases=150 if q else 6000, seed=seed, tier=tier,
+                          variant='plain', timeout=900 if q else 7200))
+    for fam in (['OO', 'IO', 'OI'] if q else FAMS):
+        specs.append(dict(label=fam + '-reentry-asan', family=fam,
+                          reentry=True, cases=60 if q else 1500,
+                          seed=seed + 3, tier=tier, variant='asanr',
+                          timeout=1500 if q else 7200))
+    # recorded finding F55, one case per process (see vmon/reentry.py)
+    for i, (fam, kind, _f) in enumerate(reentry.SACRIFICIAL):
+        specs.append(dict(label='reentry-F55-%d' % i, family=fam,
+                          sacrificial='F55', case=i, seed=seed, tier=tier,
+                          variant='asanr', timeout=600,
+                          reentry_action=_f['acts'][0],
+                          reentry_trigger=_f['trigger']))
     # valgrind memcheck on the monitor build: reads of uninitialised memory
     # and intra-object overruns that ASan's red zones cannot see (~50x: a
     # few histories only)
@@ -213,6 +237,21 @@ def run_shard(spec, rec):
             n0 = rec.evaluations
             dbops.run_case(fam, 'c', rng, rec, 'dbops', ledger_mode=True,
                            behaviour=False)
+        return
+    if spec.get('sacrificial'):
+        fam_, kind, force = reentry.SACRIFICIAL[spec['case']]
+        for ci in range(4):
+            reentry.run_case(families.get(fam_), kind, rng_for(
+                spec['seed'], ID, spec['label'], ci), rec, ci, force=force)
+        for v in rec.violations:
+            v['finding'] = spec['sacrificial']
+            v['reentry_action'] = spec['reentry_action']
+        return
+    if spec.get('reentry'):
+        for ci in range(spec['cases']):
+            for kind in families.KINDS:
+                rng = rng_for(spec['seed'], ID, spec['label'], kind, ci)
+                reentry.run_case(fam, kind, rng, rec, ci)
         return
     for h in range(spec['histories']):
         for kind in families.KINDS:
@@ -674,7 +713,7 @@ def run_history(fam, kind, rng, rec, h):
             except Exception:
                 pass
         log.append((op, outcome))
-        rec.journal(repr((desc, log[-40:])))
+        rec.journal(_srepr((desc, log[-40:])))
         # ---- commit / evict / reload -----------------------------------------
         if conn is not None and rng.random() < 0.15:
             wk = walker.walk(c, is_mapping) if is_tree else None
